@@ -524,22 +524,27 @@ Definition apply_post (v : variant) (T : tarball) (base : list (path * option fi
   (r = ROk -> (forall a, In a (t_arts T) -> exists mm, new_mode (a_mode a) = Some mm /\
                           fs w' (a_path a) = Some (Reg (a_content a) mm)) /\
               cur w' = t_to T /\ g_inst w' = t_to T /\
-              option_map j_phase (jr w') = Some PCompleted) /\
+              option_map j_phase (jr w') = Some PCompleted /\
+              g_base w' = Some (true, base, bv) /\
+              (v_same_fix v = true -> forall p f, In (p, f) base -> In p (map a_path (t_arts T)))) /\
   (r = RErrRolledBack -> g_base w' = Some (true, base, bv) /\
                          (forall p f, In (p, f) base -> fs w' p = normf v f) /\
                          (v_curm_fix v = true -> cur w' = jf)) /\
   (r = RErr -> fs w' = fs w /\ cur w' = cur w) /\
-  (forall b gi, g_base w' = Some (true, b, gi) -> b = base /\ gi = bv).
+  (forall b gi, g_base w' = Some (true, b, gi) -> b = base /\ gi = bv) /\
+  (forall b gi, g_base w' = Some (false, b, gi) -> fs w' = fs w /\ cur w' = cur w).
 
 Lemma as_post_apply_post v T base bv jf w w2 w' r :
   as_post v T base jf w2 w' r -> g_base w2 = Some (true, base, bv) -> fs w2 = fs w -> cur w2 = cur w ->
+  (v_same_fix v = true -> forall p f, In (p, f) base -> In p (map a_path (t_arts T))) ->
   apply_post v T base bv jf w w' r.
 Proof.
-  intros (A1 & A2 & A3 & A4 & A5) Hg Hf Hc. unfold apply_post, Inv. rewrite A2, Hg.
-  split; [exact A1|]. split; [exact A3|]. split; [|split].
+  intros (A1 & A2 & A3 & A4 & A5) Hg Hf Hc Hsub. unfold apply_post, Inv. rewrite A2, Hg.
+  split; [exact A1|]. split; [intros Hr; destruct (A3 Hr) as (B1 & B2 & B3 & B4); splits; auto|]. split; [|split; [|split]].
   - intros Hr. destruct (A4 Hr). splits; auto.
   - intros Hr. destruct (A5 Hr). split; congruence.
   - intros b gi Hb. now inv Hb.
+  - intros b gi Hb. discriminate.
 Qed.
 
 Lemma do_snapshot_spec v w from arts w1 ok :
@@ -572,20 +577,19 @@ Proof.
   set (base := base_of w (t_arts T)) in *.
   set (w0 := set_gfs0 _ _ _) in H.
   assert (Htriv : forall wx rr, g_base wx = Some (false, base, cur w) -> option_map j_phase (jr wx) = Some PStarted ->
-      rr = RCrash \/ (rr = RErr /\ fs wx = fs w /\ cur wx = cur w) -> apply_post v T base (cur w) (cur w) w wx rr).
-  { intros wx rr Hg Hp Hr. unfold apply_post, Inv. rewrite Hg. splits; auto.
-    - intros ->. destruct Hr as [|[? _]]; discriminate.
-    - intros ->. destruct Hr as [|[? _]]; discriminate.
-    - intros ->. destruct Hr as [|[_ ?]]; [discriminate|assumption].
+      rr = RCrash \/ rr = RErr -> fs wx = fs w /\ cur wx = cur w -> apply_post v T base (cur w) (cur w) w wx rr).
+  { intros wx rr Hg Hp Hr Hsame. unfold apply_post, Inv. rewrite Hg. splits; auto.
+    - intros ->. destruct Hr; discriminate.
+    - intros ->. destruct Hr; discriminate.
     - intros b gi Hb. discriminate. }
   destruct (crash_at F 25); [inv H; apply Htriv; auto|].
   destruct (do_snapshot v w0 (cur w) (t_arts T)) as [w1 ok] eqn:Es.
   apply do_snapshot_spec in Es as (S1 & S2 & S3 & S4 & S5 & S6 & S7).
   destruct ok; simpl in H.
-  2:{ inv H. apply Htriv; [rewrite S6; reflexivity|rewrite S1; reflexivity|right; splits; auto]. }
-  destruct (crash_at F 36); simpl in H.
+  2:{ inv H. apply Htriv; [rewrite S6; reflexivity|rewrite S1; reflexivity|right; reflexivity|split; auto]. }
+  destruct (fails F 36); simpl in H.
   { inv H. destruct (do_snapshot_nocurm_same v w0 (cur w) (t_arts T)) as (N1 & N2 & N3 & _ & N5 & _).
-    apply Htriv; [rewrite N5; reflexivity|rewrite N1; reflexivity|auto]. }
+    apply Htriv; [rewrite N5; reflexivity|rewrite N1; reflexivity|right; reflexivity|split; auto]. }
   destruct (S7 eq_refl) as (d & nv & es & D1 & D2 & D3 & D4). clear S7.
   set (w2 := set_phase (set_gbase w1 _) PSnapshotDone) in H.
   assert (Hs2 : snap_ok v w2 base (cur w)).
@@ -601,7 +605,8 @@ Proof.
   assert (Hfs2 : fs w2 = fs w /\ cur w2 = cur w).
   { unfold w2. rewrite fs_set_phase, cur_set_phase. simpl. split; assumption. }
   destruct Hfs2.
-  eapply as_post_apply_post; eauto. eapply after_snapshot_spec; eauto.
+  eapply as_post_apply_post; eauto; [eapply after_snapshot_spec; eauto|].
+  intros _ p f Hin. unfold base, base_of in Hin. apply in_map_iff in Hin as (a & Ea & Ha). inv Ea. now apply in_map.
 Qed.
 
 Lemma covered_paths es arts : covered es arts = true ->
@@ -615,9 +620,16 @@ Lemma keep_flow_spec v T F w w' r j d nv es base bv :
   keep_flow v T F w j d nv es = (w', r) -> NoDup (map a_path (t_arts T)) ->
   jr w = Some j -> snaps w (j_from j) = Some d -> s_meta d = Some (nv, es) ->
   g_base w = Some (true, base, bv) -> snap_ok v w base (j_from j) ->
+  (v_same_fix v = true -> covered_rev es (t_arts T) = true) ->
   apply_post v T base bv (j_from j) w w' r.
 Proof.
-  unfold keep_flow. intros H Hnd Hj Hd Hm Hg Hs.
+  unfold keep_flow. intros H Hnd Hj Hd Hm Hg Hs Hrev.
+  assert (Hsub : v_same_fix v = true -> forall p f, In (p, f) base -> In p (map a_path (t_arts T))).
+  { intros Hsf p f Hin. destruct Hs as (d0 & nv0 & es0 & _ & H2 & H3 & [_ E2] & _).
+    rewrite Hd in H2. inv H2. rewrite Hm in H3. inv H3.
+    destruct (E2 p f Hin) as (e & He & <-).
+    pose proof (Hrev Hsf) as Hc. unfold covered_rev in Hc. rewrite forallb_forall in Hc. specialize (Hc e He).
+    apply existsb_exists in Hc as (a & Ha & Heq). apply N.eqb_eq in Heq. rewrite <- Heq. now apply in_map. }
   set (w0 := set_jr w _) in H.
   assert (Hs0 : snap_ok v w0 base (j_from j)).
   { destruct Hs as (d0 & nv0 & es0 & H1 & H2 & H3). exists d0, nv0, es0. unfold w0. simpl. auto. }
@@ -637,6 +649,7 @@ Proof.
   - rewrite (gbase_of_frame _ _ (frame_set_phase _ _)). exact Hg.
   - rewrite fs_set_phase. reflexivity.
   - rewrite cur_set_phase. reflexivity.
+  - exact Hsub.
 Qed.
 
 (* the baseline an apply works against *)
@@ -669,8 +682,8 @@ Proof.
   destruct (resume_Inv _ _ Hi Hr) as (j & base & bv & Hj & Hg & Hs).
   rewrite Hj in *. rewrite Hg. simpl.
   pose proof Hs as (d & nv & es & H1 & H2 & H3 & _). rewrite H2, H3 in H.
-  destruct (covered es (t_arts T)) eqn:Hc.
-  - eapply keep_flow_spec; eauto.
+  destruct (covered es (t_arts T) && (negb (v_same_fix v) || covered_rev es (t_arts T))) eqn:Hc.
+  - eapply keep_flow_spec; eauto. intros Hsf. rewrite Hsf in Hc. simpl in Hc. now apply andb_prop in Hc as [_ ->].
   - inv H. unfold apply_post. rewrite Hg. splits; try discriminate; auto.
     intros b gi Hb. now inv Hb.
 Qed.
@@ -681,9 +694,9 @@ Proof.
   unfold admits. intros H. repeat (apply andb_prop in H as [H ?]). now apply nodupb_NoDup.
 Qed.
 
-(* all four repairs *)
+(* all five repairs *)
 Definition fixedv (v : variant) : Prop :=
-  v_mode_fix v = true /\ v_curm_fix v = true /\ v_keep_fix v = true /\ v_stale_fix v = true.
+  v_mode_fix v = true /\ v_curm_fix v = true /\ v_keep_fix v = true /\ v_stale_fix v = true /\ v_same_fix v = true.
 Lemma fixedv_repaired : fixedv repaired.
 Proof. repeat split. Qed.
 
@@ -700,14 +713,17 @@ Proof.
   - inv H. splits; auto. discriminate.
 Qed.
 
-Lemma mon_new_ok w arts :
+Lemma mon_new_ok w arts b0 base bv :
   (forall a, In a arts -> exists mm, new_mode (a_mode a) = Some mm /\ fs w (a_path a) = Some (Reg (a_content a) mm)) ->
+  g_base w = Some (b0, base, bv) -> (forall p f, In (p, f) base -> In p (map a_path arts)) ->
   mon_new w arts = MonOk.
 Proof.
-  intros H. unfold mon_new.
-  assert (forallb (art_installed w) arts = true) as ->; [|reflexivity].
-  apply forallb_forall. intros a Ha. destruct (H a Ha) as (mm & Hm & Hf).
-  unfold art_installed. rewrite Hm, Hf. apply ofile_eqb_refl.
+  intros H Hg Hsub. unfold mon_new. rewrite Hg.
+  assert (forallb (art_installed w) arts = true) as ->.
+  { apply forallb_forall. intros a Ha. destruct (H a Ha) as (mm & Hm & Hf).
+    unfold art_installed. rewrite Hm, Hf. apply ofile_eqb_refl. }
+  assert (forallb (fun pf => existsb (N.eqb (fst pf)) (map a_path arts)) base = true) as ->; [|reflexivity].
+  apply forallb_forall. intros [p f] Hin. simpl. apply existsb_exists. exists p. split; [eauto|apply N.eqb_refl].
 Qed.
 
 Lemma mon_restored_ok w b0 base vi :
@@ -754,13 +770,13 @@ Qed.
 Lemma step_spec v w o w' r m :
   fixedv v -> step v w o = (w', (r, m)) -> Inv v w -> Inv v w' /\ m <> MonMixed.
 Proof.
-  intros (Hv & _ & Hk & Hst) H Hi. destruct o as [T Q F|F| |p f]; simpl in H.
+  intros (Hv & _ & Hk & Hst & Hsf) H Hi. destruct o as [T Q F|F| |p f]; simpl in H.
   - destruct (apply v T Q F w) as [w1 r1] eqn:Ea. inv H.
     destruct (apply_spec _ _ _ _ _ _ _ Hk Ea Hi) as (I1 & I2 & I3). split; [assumption|].
     destruct (admits T Q w) eqn:Ead.
     + destruct (I3 eq_refl) as (P1 & P2 & P3 & P4 & P5).
       destruct r; try discriminate.
-      * destruct (P2 eq_refl) as (Q1 & _). rewrite mon_new_ok; [discriminate|assumption].
+      * destruct (P2 eq_refl) as (Q1 & _ & _ & _ & Q5 & Q6). erewrite mon_new_ok; [discriminate|exact Q1|exact Q5|exact (Q6 Hsf)].
       * destruct (P3 eq_refl) as (Q1 & Q2 & _).
         erewrite mon_restored_ok; [discriminate|exact Q1|].
         intros p f Hin. rewrite (Q2 p f Hin). now apply normf_fixed.
@@ -802,7 +818,7 @@ Lemma rb_only_restores v : fixedv v -> forall ops w b gi,
   forall w' r m, In (w', (r, m)) (run v w ops) -> r = RRbOk ->
   forall p f, In (p, f) b -> fs w' p = f.
 Proof.
-  intros Hx. pose proof Hx as (Hv & _ & Hk & Hst).
+  intros Hx. pose proof Hx as (Hv & _ & Hk & Hst & _).
   induction ops as [|o ops IH]; simpl; intros w b gi Hrb Hi Hg w' r m Hin Hr; [contradiction|].
   inv Hrb. destruct (step v w o) as [w1 [r1 m1]] eqn:Es.
   assert (Hnext : Inv v w1 /\ g_base w1 = Some (true, b, gi) /\ (r1 = RRbOk -> forall p f, In (p, f) b -> fs w1 p = f)).
@@ -819,15 +835,19 @@ Qed.
 
 (* ------------------------------------------------------------------ headline statements *)
 Lemma no_mixed_success v T Q F w w' :
-  v_keep_fix v = true -> Inv v w ->
+  fixedv v -> Inv v w ->
   apply v T Q F w = (w', ROk) ->
   (forall a, In a (t_arts T) -> exists mm, new_mode (a_mode a) = Some mm /\
                                   fs w' (a_path a) = Some (Reg (a_content a) mm)) /\
-  cur w' = t_to T /\ option_map j_phase (jr w') = Some PCompleted.
+  cur w' = t_to T /\ option_map j_phase (jr w') = Some PCompleted /\
+  (* no residue: every path of the baseline (every path an attempt of this upgrade episode may have replaced)
+     is an artifact of this tarball, hence at the new version too *)
+  (forall p f, In (p, f) (fst (baseline_of w T)) -> exists a, In a (t_arts T) /\ a_path a = p).
 Proof.
-  intros Hk Hi H. destruct (apply_spec _ _ _ _ _ _ _ Hk H Hi) as (_ & I2 & I3).
+  intros (_ & _ & Hk & _ & Hsf) Hi H. destruct (apply_spec _ _ _ _ _ _ _ Hk H Hi) as (_ & I2 & I3).
   destruct (admits T Q w) eqn:Ea; [|destruct (I2 eq_refl); discriminate].
-  destruct (I3 eq_refl) as (_ & P2 & _). destruct (P2 eq_refl) as (Q1 & Q2 & _ & Q4). auto.
+  destruct (I3 eq_refl) as (_ & P2 & _). destruct (P2 eq_refl) as (Q1 & Q2 & _ & Q4 & _ & Q6). splits; auto.
+  intros p f Hin. pose proof (Q6 Hsf p f Hin) as Hm. apply in_map_iff in Hm as (a & Ha & Hin'). eauto.
 Qed.
 
 (* the auto-rollback restores the baseline: the tree before this apply, or — when the apply continues an
@@ -836,7 +856,7 @@ Lemma failed_apply_restored v T Q F w w' :
   fixedv v -> Inv v w -> apply v T Q F w = (w', RErrRolledBack) ->
   forall p f, In (p, f) (fst (baseline_of w T)) -> fs w' p = f.
 Proof.
-  intros (Hv & _ & Hk & _) Hi H p f Hin. destruct (apply_spec _ _ _ _ _ _ _ Hk H Hi) as (_ & I2 & I3).
+  intros (Hv & _ & Hk & _ & _) Hi H p f Hin. destruct (apply_spec _ _ _ _ _ _ _ Hk H Hi) as (_ & I2 & I3).
   destruct (admits T Q w) eqn:Ea; [|destruct (I2 eq_refl); discriminate].
   destruct (I3 eq_refl) as (_ & _ & P3 & _). destruct (P3 eq_refl) as (_ & Q2 & _).
   rewrite (Q2 p f Hin). now apply normf_fixed.
@@ -1219,7 +1239,7 @@ Proof.
   { unfold J. rewrite S3, S5, S6. unfold started. rewrite S1. unfold w0. simpl.
     split; [assumption|]. split; [discriminate|]. splits; reflexivity. }
   destruct ok; simpl in H; [|inv H; split; [assumption|discriminate]].
-  destruct (crash_at F 36); simpl in H.
+  destruct (fails F 36); simpl in H.
   { inv H. destruct (do_snapshot_nocurm_same v w0 (cur w) (t_arts T)) as (N1 & _ & N3 & N4 & N5 & _).
     split; [|discriminate]. unfold J. rewrite N3, N4, N5. unfold started. rewrite N1. unfold w0. simpl.
     split; [assumption|]. split; [discriminate|]. splits; reflexivity. }
@@ -1281,17 +1301,17 @@ Qed.
 Lemma apply_flow_J v T F w w' r :
   fixedv v -> Inv v w -> J w -> apply_flow v T F w = (w', r) -> J w'.
 Proof.
-  intros (_ & Hv & Hk & Hst) Hi Hj H. unfold apply_flow in H. rewrite Hk in H. simpl in H.
+  intros (_ & Hv & Hk & Hst & _) Hi Hj H. unfold apply_flow in H. rewrite Hk in H. simpl in H.
   destruct (resume w) eqn:Hr; [|now destruct (fresh_flow_J _ _ _ _ _ _ Hv Hst Hj Hr H)].
   destruct (resume_Inv _ _ Hi Hr) as (j & base & bv & Hjr & Hg & Hs).
   rewrite Hjr in H. destruct Hs as (d & nv & es & H1 & H2 & H3 & _). rewrite H2, H3 in H.
-  destruct (covered es (t_arts T)); [|now inv H].
+  destruct (covered es (t_arts T) && _); [|now inv H].
   now destruct (keep_flow_J _ _ _ _ _ _ _ _ _ _ Hv Hst Hj Hr Hjr H2 H3 H).
 Qed.
 
 Lemma step_J v w o : fixedv v -> Inv v w -> J w -> J (fst (step v w o)).
 Proof.
-  intros Hx Hi Hj. pose proof Hx as (_ & Hv & Hk & Hst). destruct o as [T Q F|F| |p f]; simpl.
+  intros Hx Hi Hj. pose proof Hx as (_ & Hv & Hk & Hst & _). destruct o as [T Q F|F| |p f]; simpl.
   - unfold apply. destruct (admits T Q w); [|exact Hj].
     destruct (apply_flow v T F w) as [w1 r1] eqn:E. simpl. eapply apply_flow_J; eauto.
   - destruct (rollback_flow v F w) as [w1 rr] eqn:E.
@@ -1314,7 +1334,7 @@ Qed.
 Lemma step_consistent v w o w' r m :
   fixedv v -> Inv v w -> J w -> step v w o = (w', (r, m)) -> m <> MonMixed /\ step_ver o w' r <> MonMixed.
 Proof.
-  intros Hx Hi Hj Hs. pose proof Hx as (Hm & Hc & Hk & Hst).
+  intros Hx Hi Hj Hs. pose proof Hx as (Hm & Hc & Hk & Hst & _).
   split; [now destruct (step_spec _ _ _ _ _ _ Hx Hs Hi)|].
   destruct o as [T Q F|F| |p f]; simpl in *; try discriminate.
   - destruct (apply v T Q F w) as [w1 r1] eqn:Ea. inv Hs.
@@ -1330,7 +1350,7 @@ Proof.
         unfold baseline_of. destruct (resume w) eqn:Hr.
         - destruct (resume_Inv _ _ Hi Hr) as (j & base & bv & Hjr & Hg & Hs).
           rewrite Hjr in Ea. destruct Hs as (d & nv & es & H1 & H2 & H3 & _). rewrite H2, H3 in Ea.
-          destruct (covered es (t_arts T)); [|discriminate]. rewrite Hg. simpl.
+          destruct (covered es (t_arts T) && _); [|discriminate]. rewrite Hg. simpl.
           destruct (keep_flow_J _ _ _ _ _ _ _ _ _ _ Hc Hst Hj Hr Hjr H2 H3 Ea) as [_ A]. eapply A; eauto.
         - simpl. now destruct (fresh_flow_J _ _ _ _ _ _ Hc Hst Hj Hr Ea) as [_ ->]. }
       rewrite Hcw, N.eqb_refl. discriminate.
@@ -1405,14 +1425,14 @@ Lemma step_baseline v w o :
   (exists T Q F, o = OpApply T Q F /\ resume w = false /\ admits T Q w = true /\
                  base_part (fst (step v w o)) = Some (base_of w (t_arts T), cur w)).
 Proof.
-  intros (_ & _ & Hk & _) Hi. destruct o as [T Q F|F| |p f]; simpl.
+  intros (_ & _ & Hk & _ & _) Hi. destruct o as [T Q F|F| |p f]; simpl.
   - unfold apply. destruct (admits T Q w) eqn:Ead; [|now left].
     destruct (apply_flow v T F w) as [w1 r1] eqn:E. simpl.
     unfold apply_flow in E. rewrite Hk in E. simpl in E.
     destruct (resume w) eqn:Hr.
     + left. destruct (resume_Inv _ _ Hi Hr) as (j & base & bv & Hjr & Hg & Hs).
       rewrite Hjr in E. destruct Hs as (d & nv & es & H1 & H2 & H3 & _). rewrite H2, H3 in E.
-      destruct (covered es (t_arts T)); [|now inv E].
+      destruct (covered es (t_arts T) && _); [|now inv E].
       unfold keep_flow in E. destruct (crash_at F 25); [now inv E|].
       rewrite (after_snapshot_gbase _ _ _ _ _ _ _ E). unfold base_part.
       rewrite (gbase_of_frame _ _ (frame_set_phase _ _)). reflexivity.
@@ -1422,7 +1442,7 @@ Proof.
       destruct (do_snapshot _ _ _ _) as [wa ok] eqn:Es.
       pose proof Es as Es'. apply do_snapshot_spec in Es' as (_ & _ & _ & _ & _ & S6 & _).
       destruct ok; simpl in E; [|inv E; unfold base_part; now rewrite S6].
-      destruct (crash_at F 36); simpl in E.
+      destruct (fails F 36); simpl in E.
       { inv E. destruct (do_snapshot_nocurm_same v (set_gfs0 (set_gbase (set_jr w (Some {| j_from := cur w; j_to := t_to T; j_phase := PStarted |}))
                   (Some (false, base_of w (t_arts T), cur w))) (fs w) true) (cur w) (t_arts T)) as (_ & _ & _ & _ & N5 & _).
         unfold base_part. now rewrite N5. }
@@ -1472,7 +1492,7 @@ Lemma rollback_can_succeed v F w base gi :
   (forall p f, In (p, f) base -> fs w p <> Some Dir) ->
   exists w', rollback_flow v F w = (w', RbOk).
 Proof.
-  intros (_ & _ & _ & Hst) Hi Hj Hq Hg Hob Hnd.
+  intros (_ & _ & _ & Hst & _) Hi Hj Hq Hg Hob Hnd.
   unfold Inv in Hi. rewrite Hg in Hi. destruct Hi as (fr & d & nv & es & H1 & H2 & H3 & [E1 _] & _).
   destruct Hj as (_ & _ & J3). rewrite Hg in J3. destruct J3 as (_ & _ & Hs). simpl in Hs.
   unfold rollback_flow. destruct (jr w) as [j|] eqn:Ej; [|discriminate]. simpl in H1. inv H1.
@@ -1661,7 +1681,7 @@ Proof.
   assert (K1 : kx w1 = (fs w, true)).
   { unfold do_snapshot in Es. destruct (snap_loop _ _ _ _) as [b [l|]]; inv Es; reflexivity. }
   destruct ok; simpl in H; [|inv H; split; [intros; now rewrite S2|assumption]].
-  destruct (crash_at F 36); simpl in H.
+  destruct (fails F 36); simpl in H.
   { inv H. destruct (do_snapshot_nocurm_same v w0 (cur w) (t_arts T)) as (_ & N2 & _ & _ & _ & N6).
     split; [intros; now rewrite N2|]. rewrite N6. reflexivity. }
   destruct (do_snapshot_scope _ _ _ _ _ Es) as (d & nv & es & D1 & D2 & D3).
@@ -1718,15 +1738,16 @@ Qed.
 
 Lemma step_K v w o : fixedv v -> Inv v w -> K w -> K (fst (step v w o)).
 Proof.
-  intros (_ & _ & Hkf & Hst) Hi Hk. destruct o as [T Q F|F| |p f]; simpl.
+  intros (_ & _ & Hkf & Hst & _) Hi Hk. destruct o as [T Q F|F| |p f]; simpl.
   - destruct (apply v T Q F w) as [w1 r1] eqn:Ea. simpl. pose proof Ea as Ea0. unfold apply in Ea.
     destruct (admits T Q w) eqn:Ead; [|inv Ea; exact Hk].
-    destruct (apply_flow_spec _ _ _ _ _ _ Hkf Hi Ea (admits_nodup _ _ _ Ead)) as (_ & _ & _ & _ & P5).
+    destruct (apply_flow_spec _ _ _ _ _ _ Hkf Hi Ea (admits_nodup _ _ _ Ead)) as (_ & _ & _ & _ & P5 & _).
     unfold apply_flow in Ea. rewrite Hkf in Ea. simpl in Ea. unfold baseline_of in P5.
     destruct (resume w) eqn:Hr.
     + destruct (resume_Inv _ _ Hi Hr) as (j & base & bv & Hjr & Hg & Hs). rewrite Hg in P5. simpl in P5.
       rewrite Hjr in Ea. destruct (snap_ok_entry_paths _ _ _ _ Hs) as (d & nv & es & H1 & H2 & H3 & H4).
-      rewrite H2, H3 in Ea. destruct (covered es (t_arts T)) eqn:Hc; [|inv Ea; exact Hk].
+      rewrite H2, H3 in Ea. destruct (covered es (t_arts T)) eqn:Hc; simpl in Ea; [|inv Ea; exact Hk].
+      destruct (negb (v_same_fix v) || covered_rev es (t_arts T)); [|inv Ea; exact Hk].
       destruct (keep_flow_other _ _ _ _ _ _ _ _ _ _ (map fst base) Ea Hjr H4) as [O1 O2].
       { intros a Ha. destruct (proj1 (in_map_iff _ _ _) (covered_paths _ _ Hc a Ha)) as (e & <- & He). now apply H4. }
       unfold K. destruct (g_base w1) as [[[[] b] gi]|] eqn:Eg; auto.
@@ -1797,7 +1818,7 @@ Qed.
 Lemma step_resolved v w o w' r m :
   fixedv v -> Inv v w -> K w -> step v w o = (w', (r, m)) -> step_res o w' r <> MonMixed.
 Proof.
-  intros Hx Hi Hk Hs. pose proof Hx as (Hv & _ & Hkf & Hst).
+  intros Hx Hi Hk Hs. pose proof Hx as (Hv & _ & Hkf & Hst & _).
   assert (Hk' : K w') by (pose proof (step_K v w o Hx Hi Hk) as X; now rewrite Hs in X).
   destruct o as [T Q F|F| |p f]; simpl in *; try discriminate.
   - destruct (apply v T Q F w) as [w1 r1] eqn:Ea. inv Hs. destruct r; try discriminate.
@@ -1843,3 +1864,139 @@ Proof.
   - eapply mon_restored_ok; [rewrite R2; exact Hgc|exact Hrest].
 Qed.
 
+
+(* ================================================================== observable / ghost-free statements *)
+(* "the baseline's snapshot is complete" read off the journal: it exists and is past "started" *)
+Lemma post_snapshot_observable c f ops j :
+  let w := exec repaired (init_world c f) ops in
+  jr w = Some j -> phase_started (j_phase j) = false -> exists base gi, g_base w = Some (true, base, gi).
+Proof.
+  intros w Hj Hp. destruct (reachable_IJ c f ops) as [_ (_ & _ & J3)]. fold w in J3.
+  destruct (g_base w) as [[[b base] gi]|]; [|congruence].
+  destruct J3 as (_ & _ & Hs). unfold started in Hs. rewrite Hj, Hp in Hs. destruct b; [eauto|discriminate].
+Qed.
+
+(* an apply that stops with the journal still at "started" (death before / in / right after the snapshot,
+   snapshot or saveCurrentManifest error) has not touched the tree nor current-manifest *)
+Lemma stopped_at_started_untouched c f ops T Q F w' r :
+  let w := exec repaired (init_world c f) ops in
+  apply repaired T Q F w = (w', r) -> option_map j_phase (jr w') = Some PStarted ->
+  (forall p, fs w' p = fs w p) /\ cur w' = cur w.
+Proof.
+  intros w Ha Hp. destruct (reachable_IJ c f ops) as [Hi Hj]. fold w in Hi, Hj.
+  destruct (apply_spec repaired _ _ _ _ _ _ eq_refl Ha Hi) as (_ & I2 & I3).
+  destruct (admits T Q w) eqn:Ead; [|destruct (I2 eq_refl) as [-> _]; auto].
+  assert (Hj' : J w').
+  { pose proof (step_J repaired w (OpApply T Q F) fixedv_repaired Hi Hj) as X. simpl in X. now rewrite Ha in X. }
+  destruct Hj' as (_ & _ & J3). destruct (I3 eq_refl) as (_ & _ & _ & _ & _ & P6).
+  destruct (g_base w') as [[[b base] gi]|] eqn:Eg.
+  - destruct J3 as (_ & _ & Hs). unfold started in Hs.
+    destruct (jr w') as [j'|]; [|discriminate]. simpl in Hp. inv Hp. rewrite H0 in Hs. simpl in Hs.
+    destruct b; [discriminate|]. destruct (P6 _ _ eq_refl) as [-> ->]. auto.
+  - rewrite J3 in Hp. discriminate.
+Qed.
+
+Definition reports_rollback (o : op) (r : res) : Prop :=
+  match o, r with
+  | OpApply _ _ _, RErrRolledBack => True      (* "apply failed; auto-rollback succeeded" *)
+  | OpRollback _, RRbOk => True
+  | _, _ => False
+  end.
+
+(* a step that reports a rollback restores the baseline that is current after the step *)
+Lemma step_restores v w o w' r m :
+  fixedv v -> Inv v w -> J w -> step v w o = (w', (r, m)) -> reports_rollback o r ->
+  forall b vi, base_part w' = Some (b, vi) -> (forall p f, In (p, f) b -> fs w' p = f) /\ cur w' = vi.
+Proof.
+  intros Hx Hi Hj Hs Hr b vi Hb. pose proof Hx as (Hv & Hc & Hk & Hst & _).
+  destruct (step_consistent _ _ _ _ _ _ Hx Hi Hj Hs) as [_ Hver].
+  unfold base_part in Hb. destruct (g_base w') as [[[b0 b1] v1]|] eqn:Eg; [|discriminate]. inv Hb.
+  destruct o as [T Q F|F| |p0 f0]; simpl in Hs.
+  - destruct (apply v T Q F w) as [w1 r1] eqn:Ea. inv Hs. simpl in Hr. destruct r; try contradiction.
+    destruct (apply_spec _ _ _ _ _ _ _ Hk Ea Hi) as (_ & I2 & I3).
+    destruct (admits T Q w) eqn:Ead; [|destruct (I2 eq_refl); discriminate].
+    destruct (I3 eq_refl) as (_ & _ & P3 & _). destruct (P3 eq_refl) as (Q1 & Q2 & _).
+    rewrite Eg in Q1. inv Q1. split.
+    + intros p f Hin. rewrite (Q2 p f Hin). now apply normf_fixed.
+    + simpl in Hver. unfold ver_restored in Hver. rewrite Eg in Hver.
+      destruct (N.eqb_spec (cur w') (snd (baseline_of w T))); [assumption|congruence].
+  - destruct (rollback_flow v F w) as [w1 rr] eqn:Er.
+    destruct (rollback_step_spec _ _ _ _ _ Er Hi Hv Hst) as (_ & R2 & R3).
+    destruct rr; inv Hs; simpl in Hr; try contradiction.
+    destruct (R3 eq_refl) as (base & gi & Hg & Hrest). rewrite R2, Hg in Eg. inv Eg. split; [exact Hrest|].
+    simpl in Hver. unfold ver_restored in Hver. rewrite R2, Hg in Hver.
+    destruct (N.eqb_spec (cur w') vi); [assumption|congruence].
+  - inv Hs. contradiction.
+  - inv Hs. contradiction.
+Qed.
+
+(* no operation of [ops] starts a NEW upgrade episode: every apply in it is refused or finds an interrupted upgrade *)
+Fixpoint same_episode (v : variant) (w : world) (ops : list op) : Prop :=
+  match ops with
+  | [] => True
+  | o :: r => match o with OpApply T Q _ => admits T Q w = false \/ resume w = true | _ => True end /\
+              same_episode v (fst (step v w o)) r
+  end.
+
+Lemma same_episode_base v : fixedv v -> forall ops w, Inv v w -> J w -> same_episode v w ops ->
+  base_part (exec v w ops) = base_part w /\ Inv v (exec v w ops) /\ J (exec v w ops).
+Proof.
+  intros Hx. induction ops as [|o ops IH]; simpl; intros w Hi Hj Hse; [auto|].
+  destruct Hse as [Ho Hse].
+  assert (Hi1 : Inv v (fst (step v w o))).
+  { destruct (step v w o) as [w1 [r1 m1]] eqn:Es. simpl. now destruct (step_spec _ _ _ _ _ _ Hx Es Hi). }
+  pose proof (step_J v w o Hx Hi Hj) as Hj1.
+  destruct (IH _ Hi1 Hj1 Hse) as (B & I & Jx). splits; auto. rewrite B.
+  destruct (step_baseline v w o Hx Hi) as [E|(T & Q & F & -> & Hr & Ha & _)]; [exact E|].
+  destruct Ho as [Ho|Ho]; congruence.
+Qed.
+
+Lemma same_episode_app v ops1 : forall w ops2,
+  same_episode v w (ops1 ++ ops2) -> same_episode v w ops1 /\ same_episode v (exec v w ops1) ops2.
+Proof.
+  induction ops1 as [|o r IH]; simpl; intros w ops2 H; [auto|].
+  destruct H as [Ho H]. destruct (IH _ _ H). auto.
+Qed.
+
+(* the ghost-free end-to-end statement: an upgrade starts at w0 on a box that is not mid-upgrade; whatever follows
+   without a new upgrade episode starting (failures, deaths, rollbacks, ForceRetry attempts, edits, clears), every
+   operation that reports a rollback has put every artifact path of the tarball and current-manifest back to w0's *)
+Lemma end_to_end c f ops0 T Q F ops o w' r m :
+  let w0 := exec repaired (init_world c f) ops0 in
+  let w1 := fst (step repaired w0 (OpApply T Q F)) in
+  resume w0 = false -> admits T Q w0 = true ->
+  same_episode repaired w1 (ops ++ [o]) ->
+  step repaired (exec repaired w1 ops) o = (w', (r, m)) -> reports_rollback o r ->
+  (forall a, In a (t_arts T) -> fs w' (a_path a) = fs w0 (a_path a)) /\ cur w' = cur w0.
+Proof.
+  intros w0 w1 Hres Had Hse Hs Hr.
+  destruct (reachable_IJ c f ops0) as [Hi0 Hj0]. fold w0 in Hi0, Hj0.
+  assert (Hi1 : Inv repaired w1).
+  { unfold w1. destruct (step repaired w0 (OpApply T Q F)) as [wa [ra ma]] eqn:Es. simpl.
+    now destruct (step_spec _ _ _ _ _ _ fixedv_repaired Es Hi0). }
+  pose proof (step_J repaired w0 (OpApply T Q F) fixedv_repaired Hi0 Hj0) as Hj1. fold w1 in Hj1.
+  assert (B1 : base_part w1 = Some (base_of w0 (t_arts T), cur w0)).
+  { unfold w1. simpl. unfold apply. rewrite Had.
+    destruct (apply_flow repaired T F w0) as [wa ra] eqn:Ea. simpl.
+    unfold apply_flow in Ea. simpl in Ea. rewrite Hres in Ea.
+    unfold fresh_flow in Ea. rewrite Hres in Ea. simpl in Ea. unfold base_part.
+    destruct (crash_at F 25); [now inv Ea|].
+    destruct (do_snapshot _ _ _ _) as [wb ok] eqn:Es.
+    pose proof Es as Es'. apply do_snapshot_spec in Es' as (_ & _ & _ & _ & _ & S6 & _).
+    destruct ok; simpl in Ea; [|inv Ea; now rewrite S6].
+    destruct (fails F 36); simpl in Ea.
+    { inv Ea. destruct (do_snapshot_nocurm_same repaired (set_gfs0 (set_gbase (set_jr w0 (Some {| j_from := cur w0; j_to := t_to T; j_phase := PStarted |}))
+                (Some (false, base_of w0 (t_arts T), cur w0))) (fs w0) true) (cur w0) (t_arts T)) as (_ & _ & _ & _ & N5 & _).
+      now rewrite N5. }
+    pose proof (after_snapshot_gbase _ _ _ _ _ _ _ Ea) as Hb. unfold base_part in Hb.
+    rewrite (gbase_of_frame _ _ (frame_set_phase _ _)) in Hb. simpl in Hb. exact Hb. }
+  apply same_episode_app in Hse as [Hse1 Hse2].
+  destruct (same_episode_base repaired fixedv_repaired ops w1 Hi1 Hj1 Hse1) as (B & Iw & Jw).
+  assert (Bw' : base_part w' = Some (base_of w0 (t_arts T), cur w0)).
+  { simpl in Hse2. destruct Hse2 as [Ho _].
+    pose proof (step_baseline repaired (exec repaired w1 ops) o fixedv_repaired Iw) as Hb. rewrite Hs in Hb. simpl in Hb.
+    destruct Hb as [E|(T' & Q' & F' & -> & Hr' & Ha' & _)]; [rewrite E, B; exact B1|].
+    destruct Ho; congruence. }
+  destruct (step_restores _ _ _ _ _ _ fixedv_repaired Iw Jw Hs Hr _ _ Bw') as [R1 R2].
+  split; [|exact R2]. intros a Ha. apply R1. unfold base_of. apply in_map_iff. exists a. auto.
+Qed.
